@@ -269,6 +269,31 @@ def sharedAbandon (cf : Conf) (res : Res) (runs : List Nat) : Bool :=
       !(afterLastStart r res.trace).any (isStartOf q)
     else true))
 
+/-! ### the data file as lines (C11) -/
+
+/-- one line of the data file: run, invocation, iteration, index of the
+criterion within the data point (a data point has `crit` lines, the total last) -/
+structure Line where
+  run : Nat
+  inv : Nat
+  it : Nat
+  crit : Nat
+deriving Repr, DecidableEq
+
+/-- the lines of one data point, written under the file lock (persistence.py:416-424) -/
+def dpLines (crit : Nat) (r inv it : Nat) : List Line :=
+  (List.range crit).map (fun c => { run := r, inv := inv, it := it, crit := c })
+
+/-- the lines one `record` event appends: its data points one after the other -/
+def recordLines (crit : Nat) (r inv dps : Nat) : List Line :=
+  (List.range dps).flatMap (fun j => dpLines crit r inv (j + 1))
+
+/-- the data file a trace leaves behind -/
+def fileLines (crit : Nat) : List (Nat × Ev) → List Line
+  | [] => []
+  | (r, .record inv dps) :: es => recordLines crit r inv dps ++ fileLines crit es
+  | _ :: es => fileLines crit es
+
 /-! ### session result and exit status -/
 
 inductive Status where
